@@ -75,6 +75,8 @@ func uidClass(uid string) string {
 		return "contains-double-semicolon"
 	case strings.Contains(uid, ";"):
 		return "contains-semicolon"
+	case strings.ToLower(uid) != uid:
+		return "mixed-case"
 	}
 	return "plain"
 }
@@ -102,9 +104,9 @@ func c14Scenarios(tier string) []engine.Scenario {
 	if tier == "thorough" {
 		depth = 5
 	}
-	codes := []string{"c:7", "c:x;;y", "bad"}
+	codes := []string{"c:7", "c:x;;y", "c:Xy", "bad"}
 	if tier == "thorough" {
-		codes = []string{"c:7", "c:x;;y", "c:;z", "c:a;b", "bad"}
+		codes = []string{"c:7", "c:x;;y", "c:Xy", "c:xY", "c:;z", "c:a;b", "bad"}
 	}
 	sc := engine.Scenario{
 		Name: "oauth2", Depth: depth,
@@ -168,7 +170,7 @@ func c14Codec(dl time.Time) engine.UnitResult {
 		}
 	}
 	gen([]string{"a", "b"}, 3, "", &provs)
-	gen([]string{"a", ";", ":"}, 5, "", &uids)
+	gen([]string{"a", "A", ";", ":"}, 5, "", &uids)
 	type pair struct{ p, u string }
 	pids := map[string]pair{}
 	for _, p := range provs {
@@ -205,14 +207,14 @@ func c14Codec(dl time.Time) engine.UnitResult {
 func init() {
 	engine.Register(&engine.Property{
 		ID: "C14", Level: "model_checking",
-		Rule: "E1 over start / callback requests of two browsers and two providers with state in {own, other browser's, previous, empty, garbage} x code in {plain uid, uid with ';;', with ';', invalid} x provider error; plus the complete PID codec product (provider strings <= 3 over {a,b} x uid strings <= 5 over {a, ;, :}); classes = login / refusal kinds and codec uid classes",
+		Rule: "E1 over start / callback requests of two browsers and two providers with state in {own, other browser's, previous, empty, garbage} x code in {plain uid, uid with ';;', with ';', mixed-case uids, invalid} x provider error; plus the complete PID codec product (provider strings <= 3 over {a,b} x uid strings <= 5 over {a, A, ;, :}); classes = login / refusal kinds and codec uid classes",
 		Units: func(tier string) []engine.Unit {
 			scs := c14Scenarios(tier)
 			us := e1Units(append(scs, configVariants(scs, tier, "err500", "nil-state", "nomount")...))
 			us = append(us, engine.Unit{Name: "codec", Run: c14Codec})
 			return us
 		},
-		Need:        []string{"login:plain", "login:contains-double-semicolon", "refused:provider-error", "refused:state:other-browser", "refused:state:previous", "roundtrip:contains-double-semicolon"},
+		Need:        []string{"login:plain", "login:mixed-case", "roundtrip:mixed-case", "login:contains-double-semicolon", "refused:provider-error", "refused:state:other-browser", "refused:state:previous", "roundtrip:contains-double-semicolon"},
 		Assumptions: []string{"when a callback handler returns an error under the silent default error handler nothing is written, so 'state spent' is only asserted for answered callbacks", "the state is not bound to the provider it was started for (the statement does not require it)"},
 	})
 }
